@@ -22,6 +22,7 @@ from mc.runner import Result
 
 PROPERTY = "C03"
 LEVEL = "model_checking"
+TECHNIQUE = "explicit-state model checking of the implementation: all tree shapes, BFS over all order ideals of real task graphs, preemption-bounded two-thread interleavings"
 ENGINE = "E3"
 RULE = (
     "leg 1: state = (reduction, method, k blocks, split_every in 2..k, label tuple {0,1}^k); transition = real graph build + "
